@@ -368,6 +368,15 @@ pub mod verif_hooks {
         crate::routing::locator::verif_replication_info::nts_walk(racks, token, rf)
     }
 
+    /// Tag of the pre-computed ring a datacenter table hands out for `rf` (0 = compressed ring, k+1 = ring stored under `above[k]`).
+    pub fn precomputed_ring_for_rf(
+        compressed_max_rf: Option<usize>,
+        above: &[usize],
+        rf: usize,
+    ) -> Option<usize> {
+        crate::routing::locator::verif_precomputed_replicas::ring_for_rf(compressed_max_rf, above, rf)
+    }
+
     /// All tables' tablets (`TabletsInfo`); tablets carry unresolved replicas iff `unresolved`.
     pub struct TabletsOfTables(tablets::TabletsInfo);
     impl TabletsOfTables {
